@@ -112,7 +112,7 @@ CHECK_DEADLOCK FALSE
     def drive(ip):
         i, part = ip
         tp = os.path.join(wd, "trace_%d.ndjson" % i)
-        return tp, run_drive("crash", {"out": tp, "jobs": part}, wd, tag=str(i))
+        return tp, run_drive("crash", {"out": tp, "jobs": part}, wd, tag=str(i), timeout=1800 if tier() == "quick" else 7200)
 
     outs = parallel(drive, [(i, p) for i, p in enumerate(parts) if p], n=8)
     ncuts = sum(o[1]["runs"] for o in outs)
